@@ -368,6 +368,16 @@ def bound(ctx: Any) -> List[Ob]:
         if isinstance(c, ast.Call) and call_name(c) == 'get_by_details':
             rows.append((norm(c.args[0]), prog.try_fold(lc.module, c.args[1])[1], prog.try_fold(lc.module, c.args[2])[1]))
     obs.append(ob(R, lc, f'cache lookups: {rows}', 'SRV and TXT are looked up under the instance name, class IN', rows == [(f'{lc.params[0]}._name', 33, 1), (f'{lc.params[0]}._name', 16, 1)]))
+    # all cached addresses of the host are loaded: the A / AAAA scan runs whenever the host is the one already known (it may be
+    # skipped only when an SRV has just changed the host, because that branch reloads the lists itself)
+    def eff_l(node: Any, evl: Any) -> List[Any]:
+        return ['SCAN' for c in fd.node_calls(node, evl) if call_name(c) == '_get_address_records_from_cache_by_type']
+
+    lme = lc.params[0]
+    for srv_cached in (True, False):
+        ocl, undl = traces(ctx, lc, {f'{lme}.server_key': 'host-key', '.get_by_details()': fd.Sym('rec') if srv_cached else None}, eff_l, loop_bound=1, for_iter=lambda n, e: False)
+        scans = {strip_ret(t).count('SCAN') for t in ocl}
+        obs.append(ob(R, lc, f'host unchanged, SRV {"cached" if srv_cached else "not cached"}', 'both address types of the known host are read from the cache (2 scans)', scans == {2}, f'scans on the feasible paths: {sorted(scans)}; undecided {undl}'))
     ret = [r for r in walk_local_ordered(lc.node) if isinstance(r, ast.Return)]
     obs.append(ob(R, lc, ret[0].value if ret else 'return', 'the cache suffices iff the description is complete afterwards', len(ret) == 1 and norm(ret[0].value) == f'{lc.params[0]}._is_complete'))
     return obs
